@@ -313,7 +313,7 @@ pub fn run(args: &[String]) {
             rereads.push(json!({"i": i + 1, "sync_same": d1["norm"] == first_read[i]["norm"] && d1.get("err") == first_read[i].get("err"), "async_same": d2["norm"] == first_read[i]["norm"] && d2.get("err") == first_read[i].get("err")}));
         }
         let mut fresh_res = Value::Null;
-        if fresh && !lib.is_empty() {
+        if fresh && v["fresh"] != false && !lib.is_empty() {
             let dir = tempfile::tempdir().unwrap();
             for (i, a) in lib.iter().enumerate() { std::fs::write(dir.path().join(format!("{}", i + 1)), &a.bytes).unwrap(); }
             let list: Vec<String> = lib.iter().enumerate().map(|(i, a)| format!("{}={}", i + 1, a.mime)).collect();
